@@ -50,13 +50,31 @@ impl Interface {
     }
 
     pub fn all_base_interfaces(&self) -> Vec<&Interface> {
+        // An interface is often inherited through several paths (diamond inheritance).
+        // We only compute the bases of each interface once, no matter how many paths lead to it.
+        let mut computed_bases = std::collections::HashMap::new();
+        self.all_base_interfaces_impl(&mut computed_bases)
+    }
+
+    fn all_base_interfaces_impl<'a>(
+        &'a self,
+        computed_bases: &mut std::collections::HashMap<String, Vec<&'a Interface>>,
+    ) -> Vec<&'a Interface> {
+        let identifier = self.parser_scoped_identifier();
+        if let Some(all_bases) = computed_bases.get(&identifier) {
+            return all_bases.clone();
+        }
+
         let mut all_bases = self.base_interfaces();
-        all_bases.extend(self.bases.iter().flat_map(|type_ref| type_ref.all_base_interfaces()));
+        for base in self.base_interfaces() {
+            all_bases.extend(base.all_base_interfaces_impl(computed_bases));
+        }
 
         // Filter duplicates created by diamond inheritance in-place.
         let mut seen_identifiers = std::collections::HashSet::new();
         all_bases.retain(|base| seen_identifiers.insert(base.parser_scoped_identifier()));
 
+        computed_bases.insert(identifier, all_bases.clone());
         all_bases
     }
 }
